@@ -62,6 +62,9 @@ def body(chk):
     from harness import sessioncheck
 
     sessioncheck.standard(chk)
+    from harness import envrun
+
+    envrun.run(chk, {"line_meta", "image_attrs", "spurious_error"})
     chk.finish(rule="a case = one product (1-2 images) with every line-prefix field of every line holding a token of a rotating "
                     "class; + optional-header blank/zero/filled cases, midnight / year-crossing lines, random class assignments; "
                     "evaluations = leaves compared; distinct = (level, case tag)", exhaustive=False, extra={"leaves_compared": total})
